@@ -329,6 +329,10 @@ func hasAttribute(obj interface{}, name string) bool {
 	}
 	// a method that can be read as an attribute takes no arguments
 	isAttrMethod := func(v reflect.Value) bool {
+		// (a nil interface value has no method to hand out)
+		if v.Kind() == reflect.Interface && v.IsNil() {
+			return false
+		}
 		m := v.MethodByName(name)
 		return m.IsValid() && m.Type().NumIn() == 0
 	}
